@@ -41,7 +41,7 @@ struct Run : ContBase {
     FILE *devnull = nullptr;
     std::string tmpfile;
     int nt = 0, removed_in_walk = 0, sort_moved_equal = 0, loads = 0;
-    int nt_refused = 0, lookups_in_walk = 0, loads_plain_empty = 0;
+    int nt_refused = 0, lookups_in_walk = 0, loads_plain_empty = 0, loads_no_final_newline = 0;
 
     Run(Src &s_, Ctx &c_, bool scr, bool ret) : ContBase(s_, c_, scr, ret, "listtbl") {}
     ~Run() { if (t) qlisttbl_free(t); if (devnull) fclose(devnull); if (!tmpfile.empty()) unlink(tmpfile.c_str()); }
@@ -279,6 +279,48 @@ struct Run : ContBase {
         if (has_empty && !encode) loads_plain_empty++;
     }
 
+    // load() from a file somebody wrote by hand: padding blanks, blank lines, # comments, and a last
+    // line with or without its newline
+    void do_load_text() {
+        static const char seps[] = "=:|,";
+        char sep = seps[s.range(0, 3)];
+        std::string doc; std::vector<Ent> want;
+        int nl = (int)s.range(0, 8);
+        auto padding = [&]() { static const char *pd[] = {"", "", " ", "\t", "  "}; return std::string(pd[s.range(0, 4)]); };
+        for (int i = 0; i < nl; i++) {
+            int k = (int)s.pick({6, 1, 1});
+            if (k == 1) doc += padding();
+            else if (k == 2) doc += padding() + "# " + gen_key() + std::string(1, sep) + "x";
+            else {
+                std::string key; do { key = gen_key(); } while (key.empty());
+                std::string v; size_t vl = (size_t)s.range(0, 12); for (size_t j = 0; j < vl; j++) v.push_back("abcXYZ019 %=+&:|,"[s.range(0, 16)]);
+                while (!v.empty() && v.front() == ' ') v.erase(v.begin()); while (!v.empty() && v.back() == ' ') v.pop_back();
+                doc += padding() + key + padding() + std::string(1, sep) + padding() + v + padding();
+                Ent e; e.key = key; e.val = v + std::string(1, '\0'); e.isstr = true; want.push_back(e);
+            }
+            if (i + 1 < nl || s.chance(2, 3)) doc += "\n";
+        }
+        bool lastnl = doc.empty() || doc.back() == '\n';
+        // pad the file image to a malloc-chunk-filling size now and then (size+1 = 24, 40, 56, ...): what lies behind it is then another chunk's header
+        if (s.chance(1, 3) && !doc.empty() && !lastnl) { size_t want_sz = ((doc.size() + 1 + 15 - 8) / 16) * 16 + 8; while (doc.size() + 1 < want_sz) doc.insert(doc.begin(), '\n'); }
+        if (tmpfile.empty()) { const char *td = getenv("TMPDIR"); tmpfile = std::string(td ? td : "/dev/shm") + "/vf-listtbl-" + std::to_string(getpid()) + ".txt"; }
+        { FILE *f = fopen(tmpfile.c_str(), "wb"); if (!f) throw CaseStop{"cannot write temp file"}; if (!doc.empty()) fwrite(doc.data(), 1, doc.size(), f); fclose(f); }
+        bool sameopts = s.boolean();
+        Model tm; tm.o = sameopts ? m.o : Opts{false, false, false, false};
+        qlisttbl_t *t2 = qlisttbl(optbits(tm.o));
+        if (!t2) c.fail(FUNC, "listtbl:ctor", "qlisttbl() returned NULL");
+        struct G { qlisttbl_t *x; ~G() { qlisttbl_free(x); } } g{t2};
+        errno = poison;
+        ssize_t n = qlisttbl_load(t2, tmpfile.c_str(), sep, false);
+        c.op("load(sep='%c') of a hand-written file: %zu entries in %d line(s), last line %s a newline: %s", sep, want.size(), nl, lastnl ? "ends with" : "WITHOUT", hexs(doc, 120).c_str());
+        for (auto &e : want) tm.put(e, true);
+        seei((long)n);
+        if (doc.empty()) { if (n > 0) c.fail(FUNC, "listtbl:load-count", "load() of an empty file returned %zd", n); return; }   // (an empty file may be reported as 0 or as failure)
+        full_compare(t2, tm, "table loaded from a hand-written file");
+        if (n != (ssize_t)want.size()) c.fail(FUNC, "listtbl:load-count", "load() returned %zd, the file holds %zu entries", n, want.size());
+        loads++; if (!lastnl) loads_no_final_newline++;
+    }
+
     void run() {
         draw_poison();
         int ob = (int)s.range(0, 15);
@@ -292,7 +334,7 @@ struct Run : ContBase {
         if (!t) c.fail(FUNC, "listtbl:ctor", "qlisttbl() returned NULL");
         int maxops = c.tier ? 1500 : 300, ops = 0;
         while (!s.exhausted() && ops++ < maxops) {
-            int o = (int)s.pick({30, 10, 8, 8, 10, 2, 5, 1, 1, loadable_case ? 6 : 0, 2, 2, 3, loadable_case ? 0 : 2});
+            int o = (int)s.pick({30, 10, 8, 8, 10, 2, 5, 1, 1, loadable_case ? 6 : 0, 2, 2, 3, loadable_case ? 0 : 2, 2});
             const char *what = "op";
             switch (o) {
                 case 0: do_put(gen_key()); what = "put"; break;
@@ -307,6 +349,7 @@ struct Run : ContBase {
                 case 9: do_saveload(); what = "save/load"; break;
                 case 12: do_refused(gen_key()); what = "refused call"; break;
                 case 13: do_put_alias(gen_key()); what = "aliasing put"; break;
+                case 14: do_load_text(); what = "load of a hand-written file"; break;
                 case 11: { // burst: many entries under one key (getmulti array growth boundaries 10, 20, 40)
                     std::string k = gen_key(); long n = s.pick({1, 1, 1, 1}) == 0 ? 10 : s.pick({1, 1}) == 0 ? s.range(8, 12) : s.range(18, 42);
                     size_t have = m.lookup(&k).size(); if (!m.o.unique && have < (size_t)n && s.boolean()) n -= (long)have;
@@ -327,6 +370,7 @@ struct Run : ContBase {
         c.tag(strf("options_%02d", ob).c_str());
         if (loads) c.tag("case_with_save_load");
         if (loads_plain_empty) c.tag("case_with_unencoded_save_load_of_an_empty_value");
+        if (loads_no_final_newline) c.tag("case_with_load_of_a_file_without_final_newline");
         if (nt_refused) c.tag("case_with_refused_call_on_present_key");
         if (lookups_in_walk) c.tag("case_with_lookups_inside_a_walk");
         if (removed_in_walk) c.tag("case_with_removal_in_walk"); if (sort_moved_equal) c.tag("case_with_sort_moving_equal_keys");
